@@ -29,12 +29,46 @@ def clock_reads(v: Any, acc: Optional[List[T.Term]] = None) -> List[T.Term]:
     return acc
 
 
+_MUTATORS = {"add", "discard", "remove", "pop", "clear", "update", "difference_update", "intersection_update", "symmetric_difference_update", "append", "extend", "insert", "sort", "reverse"}
+
+
+def argument_mutation_rule(prog: Program, rep: Report, fkey: str, param_index: int) -> None:
+    """R13.7 (structural): in-place changes of a collection parameter before the name is re-bound to a fresh object."""
+    import ast
+    fi = prog.func(fkey)
+    if len(fi.params) <= param_index:
+        return
+    name = fi.params[param_index]
+    rebound_at = None
+    for st_ in fi.node.body:       # a top-level `days = set(days)` / `list(days)` / `sorted(days)` / `days.copy()` makes the name local
+        for n in ast.walk(st_):
+            if isinstance(n, ast.Assign) and any(isinstance(t, ast.Name) and t.id == name for t in n.targets) and isinstance(n.value, ast.Call):
+                rebound_at = n.lineno if rebound_at is None else min(rebound_at, n.lineno)
+    for n in ast.walk(fi.node):
+        line = getattr(n, "lineno", 0)
+        if rebound_at is not None and line > rebound_at:
+            continue
+        what = None
+        if isinstance(n, ast.AugAssign) and isinstance(n.target, ast.Name) and n.target.id == name:
+            what = f"`{ast.unparse(n)}` (an augmented assignment on a set / list changes the object in place)"
+        elif isinstance(n, ast.Call) and isinstance(n.func, ast.Attribute) and n.func.attr in _MUTATORS and isinstance(n.func.value, ast.Name) and n.func.value.id == name:
+            what = f"`{ast.unparse(n)}`"
+        elif isinstance(n, (ast.Assign, ast.Delete)) and any(isinstance(t, ast.Subscript) and isinstance(t.value, ast.Name) and t.value.id == name for t in n.targets):
+            what = f"`{ast.unparse(n)}`"
+        if what:
+            rep.bad("R13.7", f"{fi.qualname} changes its {name} argument", f"{fi.module.relpath}:{line} {fi.qualname}",
+                    f"{what} modifies the caller's collection: a later call with the same set (and the schedule object that owns it) no longer sees the removed / added days", key=f"R13.7|{name}")
+
+
 def run(prog: Program, rep: Report, tier: str) -> None:
+    argument_mutation_rule(prog, rep, FUNC, 1)
     rep.rule("R13.1", "clock domain: the start times are LOCAL wall-clock (they come from time.localtime); every 'now' the function reads to compare with them or to take the weekday of must be a LOCAL clock read", 1)
     rep.rule("R13.2", "the weekday named in 'Due next <weekday>' is the name (Days.value) of an element of {d.weekday : d in days}: always one of the selected days", 1)
     rep.rule("R13.3", "no days => 'Due today at <start>' without reading the clock; every result is one of the three templates with the unmodified start time", 2)
     rep.rule("R13.4", "with days given, 'today' is returned exactly under (current weekday in selected weekdays) and (now < start), strict", 1)
     rep.rule("R13.6", "the day chosen once 'today' is ruled out is the earliest upcoming one: the selected weekdays are sorted ascending, the first one STRICTLY after today's weekday is taken, and only if there is none the first selected weekday (next week) - by the lemma in the evidence this is the nearest future occurrence, a full week ahead when only today is selected", 2)
+    rep.rule("R13.7", "the selection is not consumed: pretty_next_run does not change the `days` collection it is given in place (augmented assignment, mutator method, item store / delete on the parameter "
+                      "while it still names the caller's object) - the same set is reused for later calls and is the schedule object's own `days`", 0, structural=True)
     rep.rule("R13.5", "'tomorrow' is answered exactly when the chosen day is the calendar day after today: (next == today + 1) or (next is Monday and today is Sunday), equivalently (next - today) mod 7 == 1; all other chosen days are named 'next <weekday>'", 2)
     rep.explanation = (
         "Decides the function by normal form, clause by clause: the clock domain of 'now' (LOCAL); the named weekday is a selected day (provenance); the no-days case and the three templates; "
